@@ -11,6 +11,7 @@
   * `rename_self`: renaming a name to itself keeps every name up to case and never fails.
 -/
 import DnsModel.Lemmas.RenameRun
+import DnsModel.Tie.Reader
 import DnsModel.Theorems.C06
 namespace Dns.C07
 open Dns Res
@@ -291,5 +292,18 @@ rewrites the question and, through the pointer, the answer's owner name -/
 example : (parsePP C02.okPacket >>= fun pp => renameWithRawNames pp [2, 98, 98, 0] [1, 97, 0] false) =
     .ok [0,7,0x80,0, 0,1, 0,1, 0,0, 0,1,  2,98,98,0, 0,1, 0,1,  0xc0,12, 0,1, 0,1, 0,0,0,9, 0,4, 1,2,3,4,
          0, 0,41, 4,0xd0, 0,0,0,0, 0,6, 0,10,0,2,7,7] := by decide +kernel
+
+
+/-! ### Tie to the current source text
+The readers and the case-insensitive comparison the renamer's compressor uses (`Compress::raw_name_len`, `raw_name_len_after_decompression`, `copy_uncompressed_name`,
+`SuffixDict::raw_names_eq_ignore_case`) are re-translated from /repo/src/compress.rs by rs2lean.py on every run
+(`Generated/TrReader.lean`) and proved equal to the model functions used above (`Tie/Reader.lean`). -/
+theorem source_reader_tie (p pre n1 n2 : Bytes) (off : Nat) :
+    Tr.Reader.raw_name_len p = rawNameLen p ∧
+    Tr.Reader.raw_name_len_after_decompression p off = rawNameLenAfterDecompression p off ∧
+    Tr.Reader.copy_uncompressed_name pre p off
+      = (copyUncompressedName p off >>= fun r => Res.ok ((r.1.length, r.2), pre ++ r.1)) ∧
+    Tr.Reader.raw_names_eq_ignore_case n1 n2 = .ok (rawNamesEqIgnoreCase n1 n2) :=
+  Tie.reader_tie p pre n1 n2 off
 
 end Dns.C07
